@@ -15,7 +15,9 @@
      sql/compiler.py  IdentifierPreparer.__init__ (_double_percents) -> [dp_of_paramstyle]
      sql/compiler.py  _literal_execute_expanding_parameter_literal_binds -> [render_in_list],
                       [render_in_list_be]
-     sql/compiler.py  _process_parameters_for_postcompile.process_expanding -> [process_expanding_be]
+     sql/compiler.py  _process_parameters_for_postcompile.process_expanding -> [process_expanding_be],
+                      [process_expanding_bound]
+     sql/compiler.py  _generate_generic_unary_operator         -> [render_neg]
      sql/compiler.py  _process_parameters_for_postcompile: re.sub(_post_compile_pattern, ...) -> [pcsub]
      sql/compiler.py  _process_positional (qmark/format), _process_numeric and the numeric branch of
                       _process_parameters_for_postcompile: the %(name)s passes over the finished text
@@ -340,11 +342,24 @@ Fixpoint split_sep_aux (cur : str) (s : str) : list str :=
   end.
 Definition split_sep (s : str) : list str := split_sep_aux [] s.
 
-(* process_expanding for a literal_execute expanding parameter whose type has a bind_expression:
-     expr = ", ".join("%s%s%s" % (be_left, exp, be_right) for exp in expr.split(", "))
-   where expr is the already joined list of rendered literals *)
-Definition process_expanding_be (l r : str) (lits : list str) : str :=
-  join_sep (map (fun x => l ++ x ++ r) (split_sep (render_in_list lits))).
+(* process_expanding, token carrying a bind_expression template  ~~be_left~~REPL~~be_right~~ :
+   - expanding literal_execute parameter (fix 550a51d): the list is rendered AGAIN by
+     render_literal_bindparam(..., bind_expression_template=<token>), i.e. by the literal_binds path,
+     which wraps each element where it is rendered *)
+Definition process_expanding_be (l r : str) (lits : list str) : str := render_in_list_be l r lits.
+(* - bound expanding parameter: the joined placeholders are split on ", " and each one wrapped
+       expr = ", ".join("%s%s%s" % (be_left, exp, be_right) for exp in expr.split(", ")) *)
+Definition process_expanding_bound (l r : str) (phs : list str) : str :=
+  join_sep (map (fun x => l ++ x ++ r) (split_sep (join_sep phs))).
+
+(* ---------------------------------------------------------------- unary minus over a literal *)
+
+(* SQLCompiler._generate_generic_unary_operator (fix 83f298d):
+       text = <operand>;  if opstring == "-" and text.startswith(("-", "__[POSTCOMPILE_")): "- " + text
+   [le]: the operand is a literal_execute parameter (its token is replaced by the literal later) *)
+Definition starts_minus (s : str) : bool := match s with c :: _ => c =? 45 | [] => false end.
+Definition render_neg (le : bool) (lit : str) : str :=
+  if le || starts_minus lit then 45 :: 32 :: lit else 45 :: lit.
 
 (* ---------------------------------------------------------------- numeric paramstyles *)
 
